@@ -15,6 +15,7 @@ def Statement_type_promotion_table : Prop :=
   (∀ a ∈ DT.all, ∀ b ∈ DT.all, a.isNumericOp = true → b.isNumericOp = true → (typePromotion a b).isSome = true) ∧
   (∀ a ∈ DT.all, ∀ b ∈ DT.all, typePromotion a b = typePromotion b a) ∧
   (∀ a ∈ DT.all, typePromotion a a = some a.superType) ∧
+  (∀ a ∈ DT.all, ∀ b ∈ DT.all, typePromotion a b = typePromotion a.superType b.superType ∧ a.superType.superType = a.superType) ∧
   (∀ a ∈ DT.all, a.isNumericOp = true → a.superType ∈ numericBase) ∧
   (typePromotion .integer .decimal = some .decimal ∧ typePromotion .decimal .float = some .float ∧
    typePromotion .float .double = some .double ∧ typePromotion .integer .float = some .float ∧
@@ -23,17 +24,15 @@ def Statement_type_promotion_table : Prop :=
      (typePromotion a b).bind (typePromotion · c) = (typePromotion b c).bind (typePromotion a ·))
 
 theorem type_promotion_table : Statement_type_promotion_table := by
-  refine ⟨by decide, by decide, by decide, by decide, by decide, by decide⟩
+  refine ⟨by decide, by decide, by decide, by decide, by decide, by decide, by decide⟩
 
 /-- `_val` ranks are unbound < blank node < IRI < literal; the numeric datatypes of `rdflib.term` and of
-    `operators.numeric` agree; datatype URIs are ranked injectively; seven accumulator classes -/
+    `operators.numeric` agree; datatype URIs are ranked injectively; all seven aggregates evaluate -/
 def Statement_rank_tables : Prop :=
   (rankVariable < rankBNode ∧ rankBNode < rankIRI ∧ rankIRI < rankLiteral) ∧
   (∀ d ∈ DT.all, d.isNumericTerm = d.isNumericOp) ∧
   (∀ a ∈ DT.all, ∀ b ∈ DT.all, a.uriRank = b.uriRank → a = b) ∧
-  accumulatorClasses.map Prod.fst =
-    ["Aggregate_Count", "Aggregate_Sample", "Aggregate_Sum", "Aggregate_Avg", "Aggregate_Min", "Aggregate_Max",
-     "Aggregate_GroupConcat"]
+  aggregatesEvaluated = ["COUNT", "SAMPLE", "SUM", "AVG", "MIN", "MAX", "GROUP_CONCAT"]
 
 theorem rank_tables : Statement_rank_tables := by
   refine ⟨by decide, by decide, by decide, by decide⟩
